@@ -82,6 +82,7 @@ func scenC04(w *vsim.World, spec *vsim.Spec) {
 	sent := map[string][]tentry{}
 	untrashStarted := map[string]int{}
 	deleteStarted := map[string]int{}         // DELETE requests ever started, per hash
+	prevStepAt := map[string]time.Time{}      // task -> time of its previous filesystem step
 	stalledRenameAt := map[string]time.Time{} // hash -> when a writer that had been in flight for >= TTL renamed its temp file into place
 	lastCopyWrite := map[string]time.Time{}   // request task id -> time of the latest data-write step of a block write it performed
 	taskStart := map[string]time.Time{}       // request task id (up to the first '.') -> time of its first filesystem step
@@ -272,7 +273,15 @@ func scenC04(w *vsim.World, spec *vsim.Spec) {
 		}
 		// A request (PUT, TOUCH, untrash) that has been in flight for a whole TTL and now applies a timestamp it
 		// chose back then, or moves a file into place that carries one: the family of the recorded TTL-stall findings.
-		if (s.Op == "rename" || s.Op == "chtimes") && strings.Contains(root, ">") && time.Since(taskStart[root]) >= ttl-smallJumps {
+		// (The long wait must sit right before the timestamp is applied - between the step after which the code read
+		// the clock and the utimes/rename that uses it. A request that merely took long elsewhere is not this family:
+		// seeded/C04-wave3, a timestamp taken before the copy, must not hide behind it.)
+		gapBefore := time.Duration(0)
+		if t, ok := prevStepAt[s.Task]; ok {
+			gapBefore = time.Since(t)
+		}
+		prevStepAt[s.Task] = time.Now()
+		if (s.Op == "rename" || s.Op == "chtimes") && strings.Contains(root, ">") && gapBefore >= ttl-smallJumps {
 			for _, pth := range []string{s.Path, s.Path2} {
 				base := filepath.Base(pth)
 				if strings.HasPrefix(base, "tmp") {
